@@ -77,6 +77,10 @@ func (c *c15) Cases(tier string, seed int64) []core.Case {
 				// bare index name, current directory = archive directory
 				cs = append(cs, core.MkCase(fmt.Sprintf("%s-lib-bare-%q", f, trunc2(n, 30)), c15Params{r.Int63(), f, n, "lib-bare"}))
 				cs = append(cs, core.MkCase(fmt.Sprintf("%s-cli-bare-%q", f, trunc2(n, 30)), c15Params{r.Int63(), f, n, "cli-bare"}))
+				// the user sits in a sub-directory of the archive's directory and
+				// names the index through the parent
+				cs = append(cs, core.MkCase(fmt.Sprintf("%s-lib-parent-%q", f, trunc2(n, 30)), c15Params{r.Int63(), f, n, "lib-parent"}))
+				cs = append(cs, core.MkCase(fmt.Sprintf("%s-cli-parent-%q", f, trunc2(n, 30)), c15Params{r.Int63(), f, n, "cli-parent"}))
 			}
 		}
 	}
@@ -307,13 +311,19 @@ func (c *c15) Run(cs core.Case) core.Result {
 		}
 	}
 	libIdx := idx
+	if p.Mode == "lib-parent" {
+		wd, _ := os.Getwd()
+		defer os.Chdir(wd)
+		os.Chdir(filepath.Join(t.arch, "a", "b"))
+		libIdx = "../../" + filepath.Base(idx)
+	}
 	if p.Mode == "lib-bare" {
 		wd, _ := os.Getwd()
 		defer os.Chdir(wd)
 		os.Chdir(t.arch)
 		libIdx = filepath.Base(idx)
 	}
-	if p.Mode == "lib" || p.Mode == "lib-bare" {
+	if p.Mode == "lib" || p.Mode == "lib-bare" || p.Mode == "lib-parent" {
 		idx := libIdx
 		var verr, rerr error
 		var pi *core.PanicInfo
@@ -356,6 +366,9 @@ func (c *c15) Run(cs core.Case) core.Result {
 			cwd, idxArg := filepath.Join(t.work, "sibling"), idx
 			if p.Mode == "cli-bare" {
 				cwd, idxArg = t.arch, filepath.Base(idx)
+			}
+			if p.Mode == "cli-parent" {
+				cwd, idxArg = filepath.Join(t.arch, "sub"), "../"+filepath.Base(idx)
 			}
 			tr := mon.Trace(cwd, []string{parExe, op, idxArg}, nil)
 			if tr.Err != nil {
